@@ -70,8 +70,8 @@ def virt (s0 : Sys) (st0 : HubSt) : Sys := { s0 with hub := st0 }
     those of the start `s0` (whatever slash is unrecognised there); a minting / redeeming hub entry
     point is handled; afterwards the invariant of the composed theorem holds relative to the pools
     the State query reported at the start -/
-theorem trigger_establishes (s0 s s' : Sys) (st0 : HubSt) (sender : Addr) (funds : List (Denom × Nat))
-    (hm : HubMsg) (subs : List Msg)
+theorem recog_establishes (s0 s s' : Sys) (st0 : HubSt) (sender : Addr) (funds : List (Denom × Nat))
+    (hm : HubMsg) (subs rest : List Msg)
     (hst0 : s0.hub.actualState s0.hubEnv = .ok st0)
     (sp : SamePools s0 s) (c : ChainOK s)
     (btok0 : s0.hub.bsei = some bseiA) (stok0 : s0.hub.stsei = some stseiA)
@@ -79,9 +79,10 @@ theorem trigger_establishes (s0 s s' : Sys) (st0 : HubSt) (sender : Addr) (funds
     (hd : s0.delegationsOf hubA ≠ []) (hz : s0.hub.bBond + s0.hub.sBond ≠ 0)
     (backB : 0 < st0.bBond ∨ s0.bsei.supply + s0.hub.reqB = 0)
     (backS : 0 < st0.sBond ∨ s0.stsei.supply + s0.hub.reqS = 0)
-    (ht : IsTrigHub hm)
+    (ht : IsTrigHub hm ∨ hm = .bondRewards)
+    (rnt : NoTrg rest) (rns : ∀ x ∈ rest, isStake x = false) (rnf : NoFlow rest)
     (hx : s.handle (.wasm sender hubA (.hub hm) funds) = .ok (s', subs)) :
-    RInv (virt s0 st0) s' (subs ++ []) := by
+    RInv (virt s0 st0) s' (subs ++ rest) := by
   have btok : s.hub.bsei = some bseiA := by rw [sp.btok]; exact btok0
   have stok : s.hub.stsei = some stseiA := by rw [sp.stok]; exact stok0
   have ch := handle_wasm_chain s s' _ _ _ _ subs hx
@@ -131,28 +132,61 @@ theorem trigger_establishes (s0 s s' : Sys) (st0 : HubSt) (sender : Addr) (funds
       unfold TR
       rw [q2, sp.sSupply, sp.reqS]
       simpa using rateOf_mul_le st0.sBond s0.stsei.supply s0.hub.reqS backS
-    have fl := hub_flowG s.hub s'.hub s1.hubEnv sender funds hm subs hx' (ht.trg _ _ _) rfl btok stok _ _ hbs hss
-      st hst hd1 hz1 trb trs
+    have fl : TR (rateOf st.bBond s.bsei.supply s.hub.reqB) s'.hub.bBond s.bsei.supply s'.hub.reqB
+          (mintsTo bseiA subs) (burnsBy bseiA subs) ∧
+        TR (rateOf st.sBond s.stsei.supply s.hub.reqS) s'.hub.sBond s.stsei.supply s'.hub.reqS
+          (mintsTo stseiA subs) (burnsBy stseiA subs) := by
+      rcases ht with ht | ht
+      · exact hub_flowG s.hub s'.hub s1.hubEnv sender funds hm subs hx' (ht.trg _ _ _) rfl btok stok _ _ hbs hss
+          st hst hd1 hz1 trb trs
+      · subst ht
+        simp only [hubExec] at hx'
+        split at hx'
+        · cases hx'
+        · simpa using flowG_bondR s.hub s'.hub s1.hubEnv sender funds subs hx' rfl st hst _ _ _ _ 0 0 0 0 trb trs
     have cok : ChainOK s' := ⟨fun w hw => by rw [ch.1]; exact c.outside w hw,
       fun w hw => by rw [ch.1]; rw [ch.2] at hw; exact c.unset w hw⟩
-    have book : BookInv s' (subs ++ []) := by
-      obtain ⟨pre, rest', hms, hp, hr, hle'⟩ := hub_books_stepG _ _ _ _ _ _ _ _ rfl hT (Or.inr ⟨ht, hd1, hz1⟩) hx'
-      refine ⟨cok, pre, rest' ++ [], by rw [hms, List.append_assoc], hp, ?_, ?_⟩
+    have ht2 : hm = .bond ∨ hm = .bondForStSei ∨ (∃ u a k, hm = .receive u a k) ∨ hm = .bondRewards := by
+      rcases ht with (r | r | r) | r
+      · exact Or.inl r
+      · exact Or.inr (Or.inl r)
+      · exact Or.inr (Or.inr (Or.inl r))
+      · exact Or.inr (Or.inr (Or.inr r))
+    have book : BookInv s' (subs ++ rest) := by
+      obtain ⟨pre, rest', hms, hp, hr, hle'⟩ := hub_books_stepG _ _ _ _ _ _ _ _ rfl hT (Or.inr ⟨ht2, hd1, hz1⟩) hx'
+      refine ⟨cok, pre, rest' ++ rest, by rw [hms, List.append_assoc], hp, ?_, ?_⟩
       · intro x hx''
         rcases List.mem_append.mp hx'' with h | h
         · exact hr x h
-        · cases h
+        · exact rns x h
       · unfold totalDelegated; rw [ch.1]; exact hle'
     obtain ⟨a1, a2, a3, a4, a5, a6⟩ := static_step s s' _ subs hx btok stok bwf swf bhub shub
+    obtain ⟨n1, n2, n3, n4⟩ := rnf
     refine ⟨book, a1, a2, a3, a4, a5, a6, ?_, ?_, Or.inr ?_⟩
-    · rw [rbV, bb, List.append_nil]; exact fl.1
-    · rw [rsV, t, List.append_nil]; exact fl.2
-    · rw [List.append_nil]; exact hubExec_noTrg _ _ _ _ _ _ _ hx'
+    · rw [rbV, bb, mintsTo_append, burnsBy_append, n1, n3]; exact fl.1
+    · rw [rsV, t, mintsTo_append, burnsBy_append, n2, n4]; exact fl.2
+    · exact NoTrg.append (hubExec_noTrg _ _ _ _ _ _ _ hx') rnt
   | bsei s1 sender' funds' tm heq _ _ _ _ _ _ _ => injection heq with _ e2 _ _; cases e2
   | stsei blk sender' funds' tm heq _ _ _ _ _ _ => injection heq with _ e2 _ _; cases e2
   | reward s1 sender' funds' rm heq _ _ _ _ _ _ _ _ _ => injection heq with _ e2 _ _; cases e2
   | disp env sender' funds' dm heq _ _ _ _ _ _ _ _ => injection heq with _ e2 _ _; cases e2
   | reg s1 sender' funds' rm heq _ _ _ _ _ _ _ _ _ => injection heq with _ e2 _ _; cases e2
+
+/-- the same with nothing queued behind the entry point -/
+theorem trigger_establishes (s0 s s' : Sys) (st0 : HubSt) (sender : Addr) (funds : List (Denom × Nat))
+    (hm : HubMsg) (subs : List Msg)
+    (hst0 : s0.hub.actualState s0.hubEnv = .ok st0)
+    (sp : SamePools s0 s) (c : ChainOK s)
+    (btok0 : s0.hub.bsei = some bseiA) (stok0 : s0.hub.stsei = some stseiA)
+    (bwf : s.bsei.WF) (swf : s.stsei.WF) (bhub : s.bsei.hub = hubA) (shub : s.stsei.hub = hubA)
+    (hd : s0.delegationsOf hubA ≠ []) (hz : s0.hub.bBond + s0.hub.sBond ≠ 0)
+    (backB : 0 < st0.bBond ∨ s0.bsei.supply + s0.hub.reqB = 0)
+    (backS : 0 < st0.sBond ∨ s0.stsei.supply + s0.hub.reqS = 0)
+    (ht : IsTrigHub hm)
+    (hx : s.handle (.wasm sender hubA (.hub hm) funds) = .ok (s', subs)) :
+    RInv (virt s0 st0) s' (subs ++ []) :=
+  recog_establishes s0 s s' st0 sender funds hm subs [] hst0 sp c btok0 stok0 bwf swf bhub shub hd hz backB backS
+    (Or.inl ht) NoTrg.nil (fun _ h => by cases h) NoFlow.nil hx
 
 /-- a pending queue: still messages, then one minting / redeeming hub entry point; pools, requests,
     supplies and delegations are those of the start -/
@@ -223,6 +257,235 @@ theorem pending_step (s0 : Sys) (st0 : HubSt)
         exact absurd (hQ m (List.mem_cons_self ..)) hm
   · exact Or.inr (RInv.step (virt s0 st0) s s' m rest subs hz0 r hx)
 
+/-! ### the second pending mode: no minting / redeeming entry point anywhere in the queue
+
+  An index update (UpdateGlobalIndex, the dispatcher's DispatchRewards, BondRewards) started with a
+  slash pending: until BondRewards runs — if it ever does — everything handled leaves pools,
+  requests, supplies, stored rates and delegations alone; BondRewards recognises the slash and
+  hands over to `RInv`. -/
+
+def PendQ : Msg → Bool
+  | .wasm _ _ (.hub .updateGlobalIndex) _ => true
+  | .wasm _ _ (.hub .bondRewards) _ => true
+  | .wasm _ _ (.disp .dispatch) _ => true
+  | m => Still m
+
+def AllPendQ (q : List Msg) : Prop := ∀ m ∈ q, PendQ m = true
+
+theorem pendq_of_still (m : Msg) (h : Still m = true) : PendQ m = true := by
+  cases m with
+  | wasm a b c d =>
+    cases c with
+    | hub hm => cases hm <;> first | rfl | exact h
+    | disp dm => cases dm <;> first | rfl | exact h
+    | _ => exact h
+  | _ => exact h
+
+theorem AllPendQ.of_still {q : List Msg} (h : AllStill q) : AllPendQ q := fun m hm => pendq_of_still m (h m hm)
+
+theorem AllPendQ.append {x y : List Msg} (a : AllPendQ x) (b : AllPendQ y) : AllPendQ (x ++ y) := by
+  intro m hm
+  rcases List.mem_append.mp hm with h | h
+  · exact a m h
+  · exact b m h
+
+theorem pendq_cases (m : Msg) (h : PendQ m = true) (hs : Still m = false) :
+    (∃ a b d, m = .wasm a b (.hub .updateGlobalIndex) d) ∨ (∃ a b d, m = .wasm a b (.hub .bondRewards) d) ∨
+    (∃ a b d, m = .wasm a b (.disp .dispatch) d) := by
+  cases m with
+  | wasm a b c d =>
+    cases c with
+    | hub hm =>
+      cases hm <;> first
+        | exact Or.inl ⟨_, _, _, rfl⟩
+        | exact Or.inr (Or.inl ⟨_, _, _, rfl⟩)
+        | (simp only [PendQ] at h; rw [hs] at h; cases h)
+    | disp dm =>
+      cases dm <;> first
+        | exact Or.inr (Or.inr ⟨_, _, _, rfl⟩)
+        | (simp only [PendQ] at h; rw [hs] at h; cases h)
+    | _ => simp only [PendQ] at h; rw [hs] at h; cases h
+  | _ => simp only [PendQ] at h; rw [hs] at h; cases h
+
+theorem pendq_not_trg (m : Msg) (h : PendQ m = true) : Trg m = false := by
+  by_cases hs : Still m = true
+  · exact still_not_trg m hs
+  · have hs' : Still m = false := by simpa using hs
+    rcases pendq_cases m h hs' with ⟨a, b, d, rfl⟩ | ⟨a, b, d, rfl⟩ | ⟨a, b, d, rfl⟩ <;> rfl
+
+theorem pendq_not_stake (m : Msg) (h : PendQ m = true) : isStake m = false := by
+  cases m with
+  | delegate a b c => simp [PendQ, Still] at h
+  | undelegate a b c => simp [PendQ, Still] at h
+  | _ => rfl
+
+theorem pendq_flow (t : Addr) (m : Msg) (q : List Msg) (h : PendQ m = true) :
+    mintsTo t (m :: q) = mintsTo t q ∧ burnsBy t (m :: q) = burnsBy t q := by
+  by_cases hs : Still m = true
+  · have f := flows_of_still t [m] (AllStill.cons hs AllStill.nil)
+    have a1 := mintsTo_append t [m] q
+    have a2 := burnsBy_append t [m] q
+    simp only [List.singleton_append] at a1 a2
+    rw [a1, a2, f.1, f.2]; simp
+  · have hs' : Still m = false := by simpa using hs
+    rcases pendq_cases m h hs' with ⟨a, b, d, rfl⟩ | ⟨a, b, d, rfl⟩ | ⟨a, b, d, rfl⟩ <;>
+      exact flows_cons_other t _ q (fun a b tm d he => by cases he)
+
+theorem AllPendQ.noTrg {q : List Msg} (h : AllPendQ q) : NoTrg q := fun m hm => pendq_not_trg m (h m hm)
+
+theorem AllPendQ.noFlow {q : List Msg} (h : AllPendQ q) : NoFlow q := by
+  induction q with
+  | nil => exact NoFlow.nil
+  | cons m q ih =>
+    have ih' := ih (fun x hx => h x (List.mem_cons_of_mem _ hx))
+    have hm := h m (List.mem_cons_self ..)
+    obtain ⟨n1, n2, n3, n4⟩ := ih'
+    exact ⟨by rw [(pendq_flow bseiA m q hm).1]; exact n1, by rw [(pendq_flow stseiA m q hm).1]; exact n2,
+      by rw [(pendq_flow bseiA m q hm).2]; exact n3, by rw [(pendq_flow stseiA m q hm).2]; exact n4⟩
+
+/-- what DispatchRewards emits: transfers, at most a BondRewards, the reward contract's index update -/
+theorem dispatch_pendq (c c' : DispSt) (self : Addr) (env : DispEnv) (sender : Addr) (ms : List Msg)
+    (hx : dispExec c self env sender .dispatch = .ok (c', ms)) : c' = c ∧ AllPendQ ms := by
+  simp only [dispExec] at hx
+  exc_norm at hx
+  split at hx
+  · cases hx
+  · split at hx
+    · cases hx
+    · rename_i l hl
+      injection hx with hx; injection hx with e1 e2; subst e1; subst e2
+      refine ⟨rfl, ?_⟩
+      unfold dispatchMsgs at hl
+      split at hl
+      · cases hl
+      · rename_i m1 h1
+        split at hl
+        · cases hl
+        · rename_i m2 h2
+          injection hl with hl; subst hl
+          have p1 : AllPendQ m1 := by
+            unfold coinMsgsB at h1
+            exc_split at h1 <;> (intro x hx'; simp at hx')
+            · rcases hx' with rfl | rfl <;> rfl
+          have p2 : AllPendQ m2 := by
+            unfold coinMsgsSt at h2
+            exc_split at h2 <;> (intro x hx'; simp at hx')
+            · subst hx'; rfl
+            · rcases hx' with rfl | rfl <;> rfl
+          exact AllPendQ.append (AllPendQ.append p1 p2) (fun x hx' => by simp at hx'; subst hx'; rfl)
+
+/-- pending, no minting / redeeming entry point anywhere in the queue -/
+structure PInvB (s0 s : Sys) (q : List Msg) : Prop where
+  chain : ChainOK s
+  pools : SamePools s0 s
+  btok : s.hub.bsei = some bseiA
+  stok : s.hub.stsei = some stseiA
+  bwf : s.bsei.WF
+  swf : s.stsei.WF
+  bhub : s.bsei.hub = hubA
+  shub : s.stsei.hub = hubA
+  all : AllPendQ q
+
+/-- UpdateGlobalIndex moves nothing that prices, and emits reward withdrawals, the dispatcher's swap
+    and its dispatch -/
+theorem ugi_keeps (h h' : HubSt) (e : HubEnv) (sender : Addr) (funds : List (Denom × Nat)) (ms : List Msg)
+    (hx : hubExec h e sender funds .updateGlobalIndex = .ok (h', ms)) :
+    h'.bBond = h.bBond ∧ h'.sBond = h.sBond ∧ h'.reqB = h.reqB ∧ h'.reqS = h.reqS ∧
+    h'.bRate = h.bRate ∧ h'.sRate = h.sRate ∧ h'.bsei = h.bsei ∧ h'.stsei = h.stsei ∧ AllPendQ ms := by
+  simp only [hubExec] at hx
+  split at hx
+  · cases hx
+  · unfold updateGlobal at hx
+    exc_norm at hx
+    exc_split at hx
+    all_goals
+      refine ⟨rfl, rfl, rfl, rfl, rfl, rfl, rfl, rfl, ?_⟩
+      intro x hx'
+      simp only [List.mem_append, List.mem_map, List.mem_cons, List.mem_nil_iff, or_false] at hx'
+      rcases hx' with ⟨dd', _, rfl⟩ | rfl | rfl <;> rfl
+
+/-- one message in the second pending mode -/
+theorem PInvB.step (s0 : Sys) (st0 : HubSt)
+    (hst0 : s0.hub.actualState s0.hubEnv = .ok st0)
+    (btok0 : s0.hub.bsei = some bseiA) (stok0 : s0.hub.stsei = some stseiA)
+    (hd : s0.delegationsOf hubA ≠ []) (hz : s0.hub.bBond + s0.hub.sBond ≠ 0)
+    (backB : 0 < st0.bBond ∨ s0.bsei.supply + s0.hub.reqB = 0)
+    (backS : 0 < st0.sBond ∨ s0.stsei.supply + s0.hub.reqS = 0)
+    (s s' : Sys) (m : Msg) (rest subs : List Msg) (inv : PInvB s0 s (m :: rest))
+    (hx : s.handle m = .ok (s', subs)) :
+    PInvB s0 s' (subs ++ rest) ∨ RInv (virt s0 st0) s' (subs ++ rest) := by
+  have hm : PendQ m = true := inv.all m (List.mem_cons_self ..)
+  have hrest : AllPendQ rest := fun x hx' => inv.all x (List.mem_cons_of_mem _ hx')
+  obtain ⟨a1, a2, a3, a4, a5, a6⟩ := static_step s s' m subs hx inv.btok inv.stok inv.bwf inv.swf inv.bhub inv.shub
+  have c := inv.chain
+  -- the generic continuation: pools kept, only pending messages emitted
+  have keep : SamePools s s' → AllPendQ subs → PInvB s0 s' (subs ++ rest) := by
+    intro sp hs
+    exact ⟨⟨fun w hw => by rw [sp.deleg]; exact c.outside w hw,
+        fun w hw => by rw [sp.deleg]; rw [sp.delegSet] at hw; exact c.unset w hw⟩,
+      inv.pools.trans' sp, a1, a2, a3, a4, a5, a6, AllPendQ.append hs hrest⟩
+  -- a call that reaches the swap / sink stubs
+  have stub : ∀ (h : SameContracts s s'), s'.chain.deleg = s.chain.deleg → s'.chain.delegSet = s.chain.delegSet →
+      (∀ x ∈ subs, ∃ t d a, x = Msg.bankSend swapA t d a) → PInvB s0 s' (subs ++ rest) := by
+    intro h c1 c2 hb
+    refine keep ⟨by rw [h.hub], by rw [h.hub], by rw [h.hub], by rw [h.hub], by rw [h.hub], by rw [h.hub],
+      by rw [h.hub], by rw [h.hub], by rw [h.bsei], by rw [h.stsei], c1, c2⟩ ?_
+    intro x hx'
+    obtain ⟨t, dn, amt, he⟩ := hb x hx'
+    subst he; rfl
+  by_cases hst : Still m = true
+  · have hs := handle_still s s' m subs hst hx
+    exact Or.inl (keep hs.1 (AllPendQ.of_still hs.2))
+  · have hst' : Still m = false := by simpa using hst
+    rcases pendq_cases m hm hst' with ⟨a, b, d, rfl⟩ | ⟨a, b, d, rfl⟩ | ⟨a, b, d, rfl⟩
+    · -- UpdateGlobalIndex
+      have ch := handle_wasm_chain s s' _ _ _ _ subs hx
+      cases handle_touch s s' _ subs hx with
+      | none h hm' hs hb => exact Or.inl (stub h ch.1 ch.2 hb)
+      | hub s1 sender funds hm' heq h1' _ hc hx' bb t r dd g =>
+        injection heq with e1 e2 e3 e4
+        injection e3 with e3
+        subst e1; subst e2; subst e3; subst e4
+        obtain ⟨k1, k2, k3, k4, k5, k6, k7, k8, k9⟩ := ugi_keeps _ _ _ _ _ _ hx'
+        exact Or.inl (keep ⟨k1, k2, k3, k4, k5, k6, k7, k8, by rw [bb], by rw [t], ch.1, ch.2⟩ k9)
+      | bsei s1 sender funds tm heq _ _ _ _ _ _ _ => injection heq with _ _ e3 _; cases e3
+      | stsei blk sender funds tm heq _ _ _ _ _ _ => injection heq with _ _ e3 _; cases e3
+      | reward s1 sender funds rm heq _ _ _ _ _ _ _ _ _ => injection heq with _ _ e3 _; cases e3
+      | disp env sender funds dm heq _ _ _ _ _ _ _ _ => injection heq with _ _ e3 _; cases e3
+      | reg s1 sender funds rm heq _ _ _ _ _ _ _ _ _ => injection heq with _ _ e3 _; cases e3
+    · -- BondRewards: the slash is recognised
+      have ch := handle_wasm_chain s s' _ _ _ _ subs hx
+      cases handle_touch s s' _ subs hx with
+      | none h hm' hs hb => exact Or.inl (stub h ch.1 ch.2 hb)
+      | hub s1 sender funds hm' heq h1' _ hc hx' bb t r dd g =>
+        injection heq with e1 e2 e3 e4
+        subst e1; subst e2; subst e4
+        right
+        exact recog_establishes s0 s s' st0 _ _ .bondRewards subs rest hst0 inv.pools c btok0 stok0
+          inv.bwf inv.swf inv.bhub inv.shub hd hz backB backS (Or.inr rfl) hrest.noTrg
+          (fun x hx'' => pendq_not_stake x (hrest x hx'')) hrest.noFlow hx
+      | bsei s1 sender funds tm heq _ _ _ _ _ _ _ => injection heq with _ _ e3 _; cases e3
+      | stsei blk sender funds tm heq _ _ _ _ _ _ => injection heq with _ _ e3 _; cases e3
+      | reward s1 sender funds rm heq _ _ _ _ _ _ _ _ _ => injection heq with _ _ e3 _; cases e3
+      | disp env sender funds dm heq _ _ _ _ _ _ _ _ => injection heq with _ _ e3 _; cases e3
+      | reg s1 sender funds rm heq _ _ _ _ _ _ _ _ _ => injection heq with _ _ e3 _; cases e3
+    · -- DispatchRewards
+      have ch := handle_wasm_chain s s' _ _ _ _ subs hx
+      cases handle_touch s s' _ subs hx with
+      | none h hm' hs hb => exact Or.inl (stub h ch.1 ch.2 hb)
+      | hub s1 sender funds hm' heq _ _ _ _ _ _ _ _ _ => injection heq with _ _ e3 _; cases e3
+      | bsei s1 sender funds tm heq _ _ _ _ _ _ _ => injection heq with _ _ e3 _; cases e3
+      | stsei blk sender funds tm heq _ _ _ _ _ _ => injection heq with _ _ e3 _; cases e3
+      | reward s1 sender funds rm heq _ _ _ _ _ _ _ _ _ => injection heq with _ _ e3 _; cases e3
+      | disp env sender funds dm heq _ hch hx' h bb t r g =>
+        injection heq with e1 e2 e3 e4
+        injection e3 with e3
+        subst e1; subst e2; subst e3; subst e4
+        have dp := dispatch_pendq _ _ _ _ _ _ hx'
+        exact Or.inl (keep ⟨by rw [h], by rw [h], by rw [h], by rw [h], by rw [h], by rw [h], by rw [h], by rw [h],
+          by rw [bb], by rw [t], ch.1, ch.2⟩ dp.2)
+      | reg s1 sender funds rm heq _ _ _ _ _ _ _ _ _ => injection heq with _ _ e3 _; cases e3
+
 /-- what a bSei `Send` / `SendFrom` to the hub emits: the balance mirror (still), then the hook -/
 theorem bsei_send_hook (t t' : Token) (b : Block) (rw : Res Addr) (sender : Addr) (tm : TokMsg) (ms : List Msg)
     (hm : sendsToHub hubA tm = true) (hx : bseiExec t b bseiA rw hubA sender tm = .ok (t', ms)) :
@@ -280,6 +543,50 @@ theorem pending_run (s0 : Sys) (st0 : HubSt)
   · obtain ⟨Qs, _, _, _, hq, _, _⟩ := p.shape
     cases Qs <;> simp at hq
   · have hbs : s0.hubEnv.supplyOf bseiA = .ok s0.bsei.supply := by
+      show s0.supplyOf bseiA = _; unfold Sys.supplyOf; rw [if_pos rfl]
+    have hss : s0.hubEnv.supplyOf stseiA = .ok s0.stsei.supply := by
+      show s0.supplyOf stseiA = _; unfold Sys.supplyOf; rw [if_neg (by decide), if_pos rfl]
+    have f := checked_state s0.hub st0 s0.hubEnv hst0 st0 hst0 btok0 stok0 _ _ hbs hss hd hz
+    have sb0 := (actualState_spec s0.hub st0 s0.hubEnv hst0).1
+    have tb := r.trb
+    have ts := r.trs
+    unfold TR at tb ts
+    simp only [mintsTo, burnsBy, Nat.add_zero, Nat.mul_zero] at tb ts
+    have rbV : rb0 (virt s0 st0) = st0.bRate := by
+      show rateOf st0.bBond s0.bsei.supply st0.reqB = _; rw [sb0.reqB, f.2.2.2.2.1]
+    have rsV : rs0 (virt s0 st0) = st0.sRate := by
+      show rateOf st0.sBond s0.stsei.supply st0.reqS = _; rw [sb0.reqS, f.2.2.2.2.2.1]
+    rw [rbV] at tb
+    rw [rsV] at ts
+    exact ⟨tb, ts, r.book.drained, r.btok, r.stok, r.book.chain⟩
+
+/-- **the whole run of a queue in the second pending mode**: either nothing that prices has moved (the
+    slash is still unrecognised and the State query answers what it answered), or BondRewards ran:
+    then at the end neither pool's true ratio is below the rate the State query reported at the
+    start, and the books are within the delegations -/
+theorem pending_runB (s0 : Sys) (st0 : HubSt)
+    (hst0 : s0.hub.actualState s0.hubEnv = .ok st0)
+    (btok0 : s0.hub.bsei = some bseiA) (stok0 : s0.hub.stsei = some stseiA)
+    (hd : s0.delegationsOf hubA ≠ []) (hz : s0.hub.bBond + s0.hub.sBond ≠ 0)
+    (hz0 : st0.bBond + st0.sBond ≠ 0)
+    (backB : 0 < st0.bBond ∨ s0.bsei.supply + s0.hub.reqB = 0)
+    (backS : 0 < st0.sBond ∨ s0.stsei.supply + s0.hub.reqS = 0)
+    (n : Nat) (s : Sys) (q : List Msg) (s' : Sys) (inv : PInvB s0 s q) (hrun : Sys.run n s q = .ok s') :
+    SamePools s0 s' ∨
+    (st0.bRate * (s'.bsei.supply + s'.hub.reqB) ≤ s'.hub.bBond * D ∧
+     st0.sRate * (s'.stsei.supply + s'.hub.reqS) ≤ s'.hub.sBond * D ∧
+     s'.hub.bBond + s'.hub.sBond ≤ totalDelegated s' ∧
+     s'.hub.bsei = some bseiA ∧ s'.hub.stsei = some stseiA ∧ ChainOK s') := by
+  have fin := run_inv2 (fun a b => PInvB s0 a b ∨ RInv (virt s0 st0) a b)
+    (fun a m r a' sb h hx => by
+      rcases h with p | r'
+      · exact PInvB.step s0 st0 hst0 btok0 stok0 hd hz backB backS a a' m r sb p hx
+      · exact Or.inr (RInv.step (virt s0 st0) a a' m r sb hz0 r' hx))
+    n s q s' (Or.inl inv) hrun
+  rcases fin with p | r
+  · exact Or.inl p.pools
+  · right
+    have hbs : s0.hubEnv.supplyOf bseiA = .ok s0.bsei.supply := by
       show s0.supplyOf bseiA = _; unfold Sys.supplyOf; rw [if_pos rfl]
     have hss : s0.hubEnv.supplyOf stseiA = .ok s0.stsei.supply := by
       show s0.supplyOf stseiA = _; unfold Sys.supplyOf; rw [if_neg (by decide), if_pos rfl]
